@@ -1,6 +1,9 @@
 """Grammar-generated invalid / hostile schema documents (workload stream 2 of C13). Each case is
 (label, {file: text}, start). Labels are abstract so they can serve in signatures."""
 
+import re
+from xml.sax.saxutils import quoteattr as qa
+
 XS = 'xmlns:xs="http://www.w3.org/2001/XMLSchema"'
 T = "http://zv.test/inv"
 
@@ -147,6 +150,47 @@ def cases():
     for tag, filler in (("comment-with-close-tags", "<!-- </a></a> -->"), ("cdata-with-close-tags", "<![CDATA[</a></a>]]>"),
                         ("pi-with-close-tags", "<?p </a></a>?>"), ("comment-with-empty-element-tags", "<!-- <a/><a/> /> -->")):
         out.append((f"deep-plain-elements:between={tag}:depth={depth}", {"a.xsd": ("<a>" + filler) * depth + "</a>" * depth}, "a.xsd"))
+    # ---- every garbage value (the mutation stream's pool, plus white space of several kinds) at every attribute that the reader
+    # looks at, one at a time: what the mutation stream reaches by luck, once each
+    from .mutate_xml import GARBAGE
+    garbage = list(GARBAGE) + ["\t", "  \n ", " a.xsd ", "a.xsd b.xsd", "\u00a0", "./", "../a.xsd", "/", "a.xsd/", "%20"]
+    sites = {
+        "import@schemaLocation": lambda v: schema(f'<xs:import namespace="http://zv.test/b" schemaLocation={qa(v)}/>'),
+        "import@namespace": lambda v: schema(f'<xs:import namespace={qa(v)} schemaLocation="b.xsd"/>'),
+        "element@type": lambda v: schema(f'<xs:complexType name="C"><xs:sequence><xs:element name="a" type={qa(v)}/></xs:sequence></xs:complexType>'),
+        "element@ref": lambda v: schema(f'<xs:complexType name="C"><xs:sequence><xs:element ref={qa(v)}/></xs:sequence></xs:complexType>'),
+        "element@name": lambda v: schema(f'<xs:complexType name="C"><xs:sequence><xs:element name={qa(v)} type="xs:int"/></xs:sequence></xs:complexType>'),
+        "complexType@name": lambda v: schema(f'<xs:complexType name={qa(v)}><xs:sequence><xs:element name="a" type="xs:int"/></xs:sequence></xs:complexType>'),
+        "extension@base": lambda v: schema(f'<xs:complexType name="C"><xs:complexContent><xs:extension base={qa(v)}><xs:sequence/></xs:extension></xs:complexContent></xs:complexType>'),
+        "restriction@base": lambda v: schema(f'<xs:simpleType name="S"><xs:restriction base={qa(v)}><xs:maxLength value="3"/></xs:restriction></xs:simpleType>'),
+        "facet@value": lambda v: schema(f'<xs:simpleType name="S"><xs:restriction base="xs:int"><xs:maxInclusive value={qa(v)}/><xs:enumeration value={qa(v)}/></xs:restriction></xs:simpleType>'),
+        "element@maxOccurs": lambda v: schema(f'<xs:complexType name="C"><xs:sequence maxOccurs={qa(v)}><xs:element name="a" type="xs:int" maxOccurs={qa(v)} minOccurs={qa(v)}/></xs:sequence></xs:complexType>'),
+        "schema@targetNamespace": lambda v: f'<?xml version="1.0"?><xs:schema {XS} targetNamespace={qa(v)}><xs:complexType name="C"><xs:sequence><xs:element name="a" type="xs:int"/></xs:sequence></xs:complexType></xs:schema>',
+        "part@element": lambda v: wsdl(types=GOOD_TYPES, messages=GOOD_MSG.replace('element="t:Req"', f"element={qa(v)}"), port=GOOD_PORT, binding=GOOD_BIND, service=GOOD_SVC),
+        "address@location": lambda v: wsdl(types=GOOD_TYPES, messages=GOOD_MSG, port=GOOD_PORT, binding=GOOD_BIND, service=re.sub(r'location="[^"]*"', lambda m: "location=" + qa(v), GOOD_SVC)),
+        "operation@soapAction": lambda v: wsdl(types=GOOD_TYPES, messages=GOOD_MSG, port=GOOD_PORT, binding=re.sub(r'soapAction="[^"]*"', lambda m: "soapAction=" + qa(v), GOOD_BIND), service=GOOD_SVC),
+    }
+    for site, make in sites.items():
+        for gi, v in enumerate(garbage):
+            name = "a.wsdl" if site.split("@")[0] in ("part", "address", "operation") else "a.xsd"
+            files = {name: make(v)}
+            if site.startswith("import@"):
+                files["b.xsd"] = schema("", tns="http://zv.test/b")
+            out.append((f"garbage-attribute:{site}:value-{gi}", files, name))
+    # ---- a pretty-printed schema cut right after each of its line breaks (inside the prolog, a licence comment, a start tag
+    # with one attribute per line, a CDATA section, ...): the text ends where a parser's "row" points past the last line
+    pretty = ('<?xml version="1.0"\n      encoding="UTF-8"?>\n<!--\n  Licence text\n  over several lines\n-->\n<xs:schema\n    xmlns:xs="http://www.w3.org/2001/XMLSchema"\n'
+              '    xmlns:t="http://zv.test/a"\n    targetNamespace="http://zv.test/a">\n  <xs:annotation>\n    <xs:documentation><![CDATA[\n      text\n    ]]></xs:documentation>\n'
+              '  </xs:annotation>\n  <xs:complexType\n      name="C">\n    <xs:sequence>\n      <xs:element name="a"\n          type="xs:int"/>\n    </xs:sequence>\n  </xs:complexType>\n'
+              '  <?pi some\n     thing?>\n</xs:schema>\n')
+    cuts = [i + 1 for i, c in enumerate(pretty) if c == "\n"]
+    for k, cut in enumerate(cuts):
+        out.append((f"cut-after-line-break:{k}", {"a.xsd": pretty[:cut]}, "a.xsd"))
+        out.append((f"cut-after-line-break-in-imported-file:{k}", {"a.xsd": schema('<xs:import namespace="http://zv.test/b" schemaLocation="b.xsd"/>'),
+                                                                   "b.xsd": pretty[:cut].replace("zv.test/a", "zv.test/b")}, "a.xsd"))
+    for tag, text in (("xml-declaration-open", '<?xml version="1.0"\n'), ("comment-open", "<!--x--\n"), ("only-line-breaks", "\n\n\n"), ("crlf-cut", '<a>\r\n<b\r\n'),
+                      ("cr-only-cut", "<a>\r<b\r"), ("nel-cut", "<a>\u0085<b\u0085"), ("ls-cut", "<a>\u2028<b\u2028")):
+        out.append((f"cut-after-line-break:{tag}", {"a.xsd": text}, "a.xsd"))
     # ---- a long chain of files, each importing the next (no cycle): every file that is read for an import is a level of recursion
     for n in (300, 3000, 40_000):
         files = {f"f{i}.xsd": schema(f'<xs:import namespace="http://zv.test/chain/{i + 1}" schemaLocation="f{i + 1}.xsd"/>'
